@@ -987,3 +987,25 @@ func resolveValue(v ssa.Value) ssa.Value {
 	}
 	return v
 }
+
+// isFreshError (G7): v is certainly a non-nil error: the result of an error
+// constructor or a package-level Err* sentinel.
+func isFreshError(v ssa.Value) bool {
+	v = stripConv(v)
+	switch x := v.(type) {
+	case *ssa.Call:
+		n := calleeFull(&x.Call)
+		if n == "fmt.Errorf" || n == "errors.New" {
+			return true
+		}
+		if strings.HasPrefix(n, modPath+"/commonerrors.") {
+			b := strings.TrimPrefix(n, modPath+"/commonerrors.")
+			return strings.HasPrefix(b, "New") || strings.HasPrefix(b, "Wrap") || strings.HasPrefix(b, "Undefined") || strings.HasPrefix(b, "Describe")
+		}
+	case *ssa.UnOp:
+		if g, ok := x.X.(*ssa.Global); ok && x.Op == token.MUL && strings.HasPrefix(g.Name(), "Err") {
+			return true
+		}
+	}
+	return false
+}
